@@ -529,6 +529,16 @@ def replay_file(path, verbose=False):
         r = subprocess.run([BIN_PG, path], capture_output=True, text=True, timeout=60)
         print(f'case {path}: {trace.get("violation")}'); print('native:    ' + r.stdout.strip()); print('predicted: ' + json.dumps(trace.get('predicted')))
         return 0
+    if trace.get('kind') == 'kani_serde':
+        from . import w_serde
+        d = w_serde.instantiate()
+        env = dict(os.environ); env['CARGO_NET_OFFLINE'] = 'true'; env.pop('RUSTFLAGS', None)
+        subprocess.run(['cargo', 'build', '--offline', '--target-dir', os.path.join(d, 'nt')], cwd=d, env=env, capture_output=True, text=True)
+        print(f'case {path}: {trace.get("violation")}')
+        for o in trace.get('replay', []):
+            r = subprocess.run([os.path.join(d, 'nt', 'debug', 'dp-serde-replay')] + o['args'], capture_output=True, text=True, timeout=60)
+            print('dp-serde-replay ' + ' '.join(o['args']) + '\n   native now: ' + r.stdout.strip() + '\n   recorded:   ' + o['native'])
+        return 0
     native = run_native(trace, keep_path=path)
     print(f'trace {path}: {trace.get("violation")}')
     for n in native:
